@@ -56,17 +56,33 @@ pub fn sync_cq(s: &mut Simk, fd: i32) {
         i = i.wrapping_add(1);
     }
     ring.cq_seen_head = head;
+    // a10 is done with the completions before `head`: their operation state
+    // may be released now.
+    ring.state_watch.retain(|(pos, req)| {
+        if head.wrapping_sub(*pos).wrapping_sub(1) < (1 << 31) {
+            alloc::release(*req);
+            false
+        } else {
+            true
+        }
+    });
 }
 
 /// Post a completion on `fd` (or keep it in the overflow backlog).
 pub fn post_cqe(s: &mut Simk, fd: i32, cqe: Cqe) {
+    post_cqe_for(s, fd, cqe, 0)
+}
+
+/// Same, `state_req` names the request whose operation state stays referenced
+/// until a10 has consumed this (final) completion.
+pub fn post_cqe_for(s: &mut Simk, fd: i32, cqe: Cqe, state_req: u64) {
     sync_cq(s, fd);
     let Some(ring) = s.rings.get_mut(&fd) else { return };
     if !ring.cq_ring.usable() {
         return;
     }
     if !ring.backlog.is_empty() || ring.cq_tail.wrapping_sub(ring.cq_seen_head) >= ring.cq_entries {
-        ring.backlog.push_back(cqe);
+        ring.backlog.push_back((cqe, state_req));
         s.counters.cqes_backlogged += 1;
         unsafe {
             ring.sq_ring
@@ -76,11 +92,14 @@ pub fn post_cqe(s: &mut Simk, fd: i32, cqe: Cqe) {
         flush_backlog(s, fd);
         return;
     }
-    write_cqe(ring, cqe);
+    write_cqe(ring, cqe, state_req);
     s.counters.cqes += 1;
 }
 
-fn write_cqe(ring: &mut Ring, cqe: Cqe) {
+fn write_cqe(ring: &mut Ring, cqe: Cqe, state_req: u64) {
+    if state_req != 0 {
+        ring.state_watch.push((ring.cq_tail, state_req));
+    }
     let slot = (ring.cq_tail & (ring.cq_entries - 1)) as usize;
     let off = ring.cq_off[5] as usize + slot * CQE_SIZE;
     unsafe {
@@ -107,8 +126,8 @@ pub fn flush_backlog(s: &mut Simk, fd: i32) {
     while !ring.backlog.is_empty()
         && ring.cq_tail.wrapping_sub(ring.cq_seen_head) < ring.cq_entries
     {
-        let cqe = ring.backlog.pop_front().unwrap();
-        write_cqe(ring, cqe);
+        let (cqe, state_req) = ring.backlog.pop_front().unwrap();
+        write_cqe(ring, cqe, state_req);
         s.counters.cqes += 1;
     }
     if ring.backlog.is_empty() {
@@ -236,6 +255,7 @@ pub fn submit(s: &mut Simk, fd: i32, sqe: Sqe) {
         sqe,
         state: ReqState::InFlight,
         posted: Vec::new(),
+        produced: Vec::new(),
         captured: Vec::new(),
         created: Vec::new(),
         owner,
@@ -299,6 +319,7 @@ fn finish_inline(s: &mut Simk, id: u64, res: i32) {
     };
     let cqe = Cqe { user_data: ud, res, flags: 0 };
     s.reqs.get_mut(&id).unwrap().posted.push(cqe);
+    s.reqs.get_mut(&id).unwrap().produced.push(Vec::new());
     if skip && res >= 0 {
         return;
     }
